@@ -298,7 +298,30 @@ def drive(ctx, strategy, body, max_examples, salt='', rounds=5, shrink=True):
                 continue
             # an oracle that is not a function of its input is a harness defect, not a finding
             raise HarnessError(f'{ctx.prop}/{ctx.task}/{salt}: flaky: {ex}')
+        except Exception as ex:  # noqa
+            if _shrinker_crashed(ctx, ex):
+                continue
+            raise
         break
+
+
+def _shrinker_crashed(ctx, ex):
+    """Hypothesis 6.168's shrinker can fail internally (seen: ValueError in lower_duplicated_characters) while minimising
+    a failing example. The failure itself was observed by the oracle before that, so the last recorded failing case is
+    reported un-minimised instead of losing the finding to a harness error."""
+    tb = ex.__traceback__
+    inner = None
+    while tb is not None:
+        inner = tb.tb_frame.f_code.co_filename
+        tb = tb.tb_next
+    if ctx._last is None or not inner or (os.sep + 'hypothesis' + os.sep) not in inner:
+        return False
+    sig, case, msg = ctx._last
+    ctx.report(sig, case, msg + ' [not minimised: the shrinker failed internally]')
+    ctx.excluded.add(sig)
+    ctx.note(f'Hypothesis shrinker raised {type(ex).__name__} internally; the case was kept as last seen')
+    ctx._last = None
+    return True
 
 
 def _history_dependent(ctx):
@@ -340,6 +363,10 @@ def drive_machine(ctx, machine_factory, max_examples, steps, salt='', rounds=4, 
             if _history_dependent(ctx):
                 continue
             raise HarnessError(f'{ctx.prop}/{ctx.task}/{salt}: flaky: {ex}')
+        except Exception as ex:  # noqa
+            if _shrinker_crashed(ctx, ex):
+                continue
+            raise
         break
 
 
